@@ -82,7 +82,68 @@ def _oracle(item):
     return out
 
 
+INNER = ['B7+1', 'zz', 'K()', 'SUM(A1:B2)', '1+2', 'Q5', 'zz+B7+K()']
+RE_VALUES = [0, False, '', 1, 'x', 2.5, None, [1, 2]]
+
+
+def check_reentrant(item):
+    """a listener hands a value to its setter and then (itself, or a later listener of the same event) evaluates another
+    formula with references of its own on the same parser: the outer reference still takes the value it was handed, and
+    raises one event"""
+    kind, vi, inner, split = item
+    import hotxlfp
+    v = RE_VALUES[vi]
+    p = hotxlfp.Parser()
+    p.set_variable('zz', 3)
+    p.set_variable('outerv', 5)
+    p.set_function('K', lambda *a: 9)
+    p.set_function('OUTF', lambda *a: 7)
+    ev, formula, default = {'cell': ('callCellValue', 'Q5', None), 'range': ('callRangeValue', 'Q5:R6', None),
+                            'var': ('callVariable', 'outerv', 5), 'fn': ('callFunction', 'OUTF(1)', 7)}[kind]
+    state = {'depth': 0, 'outer_calls': 0}
+
+    def setter_part(*a):
+        if state['depth']:
+            a[-1]('inner')            # references of the nested formula get a value of their own
+            return
+        state['outer_calls'] += 1
+        a[-1](v)
+        if not split:
+            nested()
+
+    def nested():
+        state['depth'] += 1
+        try:
+            p.parse(inner)
+        finally:
+            state['depth'] -= 1
+
+    def evaluating_part(*a):
+        if not state['depth']:
+            nested()
+    for e in ('callCellValue', 'callRangeValue', 'callVariable', 'callFunction'):
+        p.on(e, setter_part if e == ev else (lambda *a: a[-1]('inner') if state['depth'] else None))
+    if split:
+        p.on(ev, evaluating_part)
+    r = p.parse(formula)
+    want = {'result': v if v is not None else default, 'error': None}
+    out = []
+    if r != want or type(r['result']) is not type(want['result']):
+        out.append(('%s listener hands %r to the setter, then %s evaluates %s on the same parser; formula %s'
+                    % (ev, v, 'a second listener' if split else 'it', inner, formula), None, want, r))
+    if state['outer_calls'] != 1:
+        out.append(('%s events for the one reference of %s' % (ev, formula), None, 1, state['outer_calls']))
+    return out
+
+
+def reentrant_items():
+    return [(k, vi, inner, split) for k in ('cell', 'range', 'var', 'fn') for vi in range(len(RE_VALUES)) for inner in INNER for split in (False, True)]
+
+
 def check_case(case):
+    if 'reentrant' in case:
+        c = case['reentrant']
+        return [{'case': case, 'what': w, 'class': cl, 'expected': repr(e), 'observed': repr(g)} for (w, cl, e, g) in check_reentrant(tuple(c))]
     if 'tree' in case:
         tree, host, formula = thaw_tree(case['tree']), case['host'], case['formula']
         host = dict(host)
@@ -159,6 +220,11 @@ def explore(ctx):
         for (w, cls, e, g) in vs:
             R.violate({'tree': item[0], 'host': item[1], 'formula': item[2]}, w, cls, repr(e), repr(g))
     R.evaluations += len(items)
+    ri = reentrant_items()
+    for (item, vs) in zip(ri, pmap(check_reentrant, ri)):
+        for (w, cls, e, g) in vs:
+            R.violate({'reentrant': list(item)}, w, cls, repr(e), repr(g))
+    R.evaluations += len(ri)
     nrefs = sum(1 for (t, h, f) in items if len(refgen.positions(t)) > 2)
     R.extra['tree_depths'] = depths
     R.extra['formulas_with_3_or_more_nodes'] = nrefs
@@ -168,7 +234,8 @@ def explore(ctx):
               'patterns x columns A..XFD and beyond, up to 5 letters x rows 1..1048577 and beyond), rectangles in all four corner '
               'orders with random $ and case, and all setter scripts of length <= %d over 8 values for cell, range, variable (set '
               'and unset) and function events; every case: recorded listener calls and record vs the model and vs the oracle '
-              'computed from the generating tree.' % (5 if big else 4, POOL, 3 if big else 2))
+              'computed from the generating tree; listeners that hand a value to the setter and then evaluate another formula on '
+              'the same parser (4 events x 8 values x 7 inner formulas, one or two listeners).' % (5 if big else 4, POOL, 3 if big else 2))
     return R
 
 
@@ -184,5 +251,9 @@ def search(ctx, proof, res):
     for (item, vs) in zip(items, pmap(_oracle, items)):
         for (w, cls, e, g) in vs:
             R.violate({'tree': item[0], 'host': item[1], 'formula': item[2]}, w, cls, repr(e), repr(g))
-    R.evaluations = len(items)
+    ri = reentrant_items()
+    for (item, vs) in zip(ri, pmap(check_reentrant, ri)):
+        for (w, cls, e, g) in vs:
+            R.violate({'reentrant': list(item)}, w, cls, repr(e), repr(g))
+    R.evaluations = len(items) + len(ri)
     return R
